@@ -159,7 +159,8 @@ def classify(ctx, fam, cm, run, v, tally, remarks):
                  f"parse_pdos returned {run["bits"]}, sizes {run["sizes"]})", part=key, verdict=v[key],
                  bits=run["bits"], sizes=run["sizes"], expected_bits=[v["outbits"], v["inbits"]])
     if v["assign"] not in ("ok", "n/a"):
-        fail("assign-bad", f"0x1C12 / 0x1C13 afterwards: {run['assigned']}", assigned=run["assigned"])
+        fail("assign-" + v["assign"], f"the assignment {base['out_pdos']} / {base['in_pdos']}: {v['assign']} "
+             f"(0x1C12 / 0x1C13 afterwards: {run['assigned']})", assigned=run["assigned"])
     for d, (code, fit), sign in zip(run["decls"], v["decls"], v["signs"]):
         dd = dict(decl=d["name"], kind=d["kind"], index=d["idx"] + d["off"], sub=d["sub"], ov=d["ov"], res=d["res"])
         if code not in ("ok", "free"):
@@ -353,6 +354,8 @@ def run(ctx):
     names = [c.__name__ for c in classes if c.__name__ != "Generic"]
     ctx.extra["matching_pairs"] = {n: matched[n] for n in names if n in matched}
     ctx.extra["classes_without_record"] = [n for n in names if n not in matched]
+    ctx.extra["classes_not_examined"] = dict(Skip="initialize does nothing by design",
+                                             AerotechBase="abstract: the PDO is defined by the user's subclass")
     ctx.extra["records_without_class"] = [i for i in range(len(records)) if ("rec", i) not in matched]
     ctx.extra["device_remarks"] = {
         f"record {meta[k]['record']} ({meta[k]['variant']})":
